@@ -38,7 +38,8 @@ pub enum Case {
         /// use CodesStats<3,5,2,4,6> instead of the default parameters
         small_params: bool,
         /// further non-default parameter sets (overrides `small_params` when non-zero): 1 = <2,40,3,2,1>
-        /// (more Golomb moduli than 2^RICE), 2 = <0,0,0,0,0> (no parameterised code tracked), 3 = <1,1,1,1,1>
+        /// (more Golomb moduli than 2^RICE), 2 = <0,0,0,0,0> (no parameterised code tracked), 3 = <1,1,1,1,1>,
+        /// 4 = <0,4,0,2,0> (the largest Golomb modulus is 2^RICE, which no Rice entry covers)
         #[serde(default)]
         params: u8,
     },
@@ -51,7 +52,7 @@ pub const DEF: PropDef = PropDef {
     rule: "Cases are multisets of (value, multiplicity) pairs (small values, values around powers of two, large values; built with a running \
 budget so that every tracked total stays below 2^62, D13), a random split into 1..=8 partial statistics, a way of combining them (add, +=, +, \
 sum), a way of observing (update one by one, update_many, CodesStatsWrapper on writes, CodesStatsWrapper on reads), default or non-default \
-const parameters (CodesStats<3,5,2,4,6>, <2,40,3,2,1> with more Golomb moduli than 2^RICE, <0,0,0,0,0>, <1,1,1,1,1>). Oracle: per tracked code the total equals the sum of reference lengths (u128) with the index mapping \
+const parameters (CodesStats<3,5,2,4,6>, <2,40,3,2,1> with more Golomb moduli than 2^RICE, <0,0,0,0,0>, <1,1,1,1,1>, <0,4,0,2,0>; every value below 64 and every pair of values below 8 on each of them). Oracle: per tracked code the total equals the sum of reference lengths (u128) with the index mapping \
 written from the documentation (zeta[i] = zeta_{i+1}, golomb[i] = b i+1, exp_golomb[i] = k i, rice[i] = log2_b i, pi[i] = k i+2), total = number \
 of elements, merging == observing the union, best_code() returns a code whose reference total is the minimum over all tracked totals with that \
 minimum as cost, and actually encoding the multiset with the returned Codes value through the library's writer produces exactly that many bits. \
@@ -278,6 +279,7 @@ pub fn check_case(c: &Case, _env: &Env) -> CheckResult {
                 (1, _) => seq::<2, 40, 3, 2, 1>(items, assign, *parts, *via, *combine)?,
                 (2, _) => seq::<0, 0, 0, 0, 0>(items, assign, *parts, *via, *combine)?,
                 (3, _) => seq::<1, 1, 1, 1, 1>(items, assign, *parts, *via, *combine)?,
+                (4, _) => seq::<0, 4, 0, 2, 0>(items, assign, *parts, *via, *combine)?,
                 (_, true) => seq::<3, 5, 2, 4, 6>(items, assign, *parts, *via, *combine)?,
                 _ => seq::<10, 20, 10, 10, 10>(items, assign, *parts, *via, *combine)?,
             }
@@ -297,6 +299,7 @@ pub fn check_case(c: &Case, _env: &Env) -> CheckResult {
                 1 => o.label("params_2_40_3_2_1"),
                 2 => o.label("params_all_zero"),
                 3 => o.label("params_all_one"),
+                4 => o.label("params_0_4_0_2_0"),
                 _ => {}
             }
         }
@@ -368,7 +371,7 @@ pub fn gen_case(s: &mut Src) -> Case {
     let items = gen_items(s, 24, max_mult);
     let parts = s.range(1, 8) as u8;
     let assign = (0..items.len()).map(|_| s.u8()).collect();
-    Case::Seq { items, assign, parts, via, combine: s.pick(&[Combine::Add, Combine::AddAssign, Combine::Plus, Combine::Sum]), small_params: s.below(4) == 0, params: [0u8, 0, 0, 0, 1, 1, 2, 3][s.below(8)] }
+    Case::Seq { items, assign, parts, via, combine: s.pick(&[Combine::Add, Combine::AddAssign, Combine::Plus, Combine::Sum]), small_params: s.below(4) == 0, params: [0u8, 0, 0, 0, 1, 4, 2, 3][s.below(8)] }
 }
 
 fn run(ctx: &Ctx, env: &Env) -> Stats {
@@ -387,6 +390,20 @@ fn run(ctx: &Ctx, env: &Env) -> Stats {
         let mut vals: Vec<u64> = (0..2048).collect();
         for i in 11..56 {
             vals.extend_from_slice(&[(1u64 << i) - 1, 1 << i, (1 << i) + 1]);
+        }
+        // small values and pairs of small values on every parameter set (few tracked codes: ties cannot mask a
+        // wrong best code)
+        for params in 0..=4u8 {
+            for v in 0..64u64 {
+                for mult in [1u32, 5] {
+                    part.check(&Case::Seq { items: vec![(v, mult)], assign: vec![0], parts: 1, via: Via::UpdateMany, combine: Combine::Add, small_params: false, params }, &f);
+                }
+            }
+            for a in 0..8u64 {
+                for b in a..8u64 {
+                    part.check(&Case::Seq { items: vec![(a, 1), (b, 1)], assign: vec![0, 1], parts: 2, via: Via::Update, combine: Combine::Sum, small_params: false, params }, &f);
+                }
+            }
         }
         for (k, v) in vals.into_iter().enumerate() {
             let via = if k % 2 == 0 { Via::Update } else { Via::UpdateMany };
